@@ -261,7 +261,8 @@ class C06Oracle(Oracle):
                     s["max_data"] = max(s["max_data"], f["limit"])
                 elif f.type == wf.MAX_STREAM_DATA:
                     sid = f["stream_id"]
-                    s["stream_limit"][sid] = max(s["stream_limit"].get(sid, s["stream_initial"]), f["limit"])
+                    s["stream_limit"][sid] = max(s["stream_limit"].get(sid, self.sim.peer_stream_data_limit(ep, sid)),
+                                                 f["limit"])
                 elif f.type in (wf.MAX_STREAMS_BIDI, wf.MAX_STREAMS_UNI):
                     uni = f.type == wf.MAX_STREAMS_UNI
                     s["max_streams"][uni] = max(s["max_streams"][uni], f["limit"])
@@ -288,7 +289,7 @@ class C06Oracle(Oracle):
                                                      "uni" if uni else "bidi"))
                 if end is None:
                     continue
-                lim = s["stream_limit"].get(sid, s["stream_initial"])
+                lim = s["stream_limit"].get(sid, self.sim.peer_stream_data_limit(ep, sid))
                 if end > lim:
                     raise Violation("c06.stream-data", "offset-beyond-max_stream_data",
                                     "%s sent %s on stream %d up to offset %d, the latest per-stream limit delivered "
